@@ -58,9 +58,10 @@ def check_case(ctx, case, m):
         want = alone[1][0]
         have = named[nm]
         if not same_vals(have, want):
-            i = next(j for j in range(len(want)) if j >= len(have) or common.canon(have[j]) != common.canon(want[j]))
-            return Violation("%s monitor: get_value(%r) at step/sample %d is %r, the stand-alone specification '%s = %s' gives %r"
-                             % (mon, nm, i, have[i] if i < len(have) else None, nm, F.to_text(case["inl"][nm]), want[i]),
+            i = next((j for j in range(len(want)) if j >= len(have) or common.canon(have[j]) != common.canon(want[j])), len(want))
+            return Violation("%s monitor: get_value(%r) at step/sample %d is %r (%d values), the stand-alone specification '%s = %s' gives %r (%d values)"
+                             % (mon, nm, i, have[i] if i < len(have) else None, len(have), nm, F.to_text(case["inl"][nm]),
+                                want[i] if i < len(want) else None, len(want)),
                              dict(rep, name=nm, standalone=alone), stream="getv"), None
     if mon == "ond" and m is not None and m[0] == "ok":
         for k, nm in enumerate(names):
@@ -76,7 +77,7 @@ def check_case(ctx, case, m):
 def explore(ctx, rng, count):
     cases = []
     for _ in range(count):
-        mon = rng.choice(["offd", "ond", "ond", "past"])
+        mon = rng.choice(["offd", "offd", "ond", "ond", "past"])
         c = M.gen_case(rng, ALLOW[mon], mon)
         if disc.known_region(ctx, c, REGIONS):
             ctx.skipped_known += 1
@@ -112,7 +113,7 @@ def replay(ctx, obj):
 
 
 def run(ctx):
-    explore(ctx, ctx.subrng("getv"), ctx.budget(200, 3000))
+    explore(ctx, ctx.subrng("getv"), ctx.budget(700, 5000))
     if not ctx.violations:
         try:
             from .. import dense
